@@ -141,6 +141,38 @@ fn local_cases<B: Backend, P: Prims>(opts: &Opts, rep: &mut Report, idx: &mut u6
         rep.case(&class, h, true);
     }
 
+    // dense sweep of message / footer / assertion lengths against the reference, and sequences on ONE
+    // key object: repeated nonces with different messages, alternating nonces, alternating keys
+    // (anything memoised per key or per nonce with an incomplete cache key shows up here)
+    {
+        let class = format!("{}.local.dense-and-sequences", B::NAME);
+        let mut srng = Rng::derive(opts.seed, &stream, 1);
+        let keys: [[u8; 32]; 2] = [srng.arr(), srng.arr()];
+        let pairs = [KeyPair::<B>::Local(local_key::<B>(&keys[0])), KeyPair::<B>::Local(local_key::<B>(&keys[1]))];
+        let nonces: Vec<Vec<u8>> = (0..3).map(|_| srng.bytes(B::LOCAL_NONCE)).collect();
+        if opts.shard == 0 || opts.only.is_some() {
+            for step in 0..opts.size(1500, 15000) {
+                *idx += 1;
+                let mut rng = Rng::derive(opts.seed, &stream, *idx);
+                let ki = if step % 7 == 3 { 1 } else { 0 };
+                let n0 = &nonces[[0usize, 0, 1, 0, 2, 1, 0][step % 7]];
+                let len = step % 700;
+                let msg = rng.bytes(len);
+                let footer = rng.bytes([0usize, 0, 5, 200][step % 4]);
+                let aad = if B::HAS_AAD { rng.bytes([0usize, 3, 0, 130][(step / 3) % 4]) } else { vec![] };
+                let want = join_token(&pairs[ki].header(), &r::local_seal::<P>(B::VER, &keys[ki], n0, &msg, &footer, &aad), &footer);
+                let d = || json!({"backend": B::NAME, "sequence_step": step, "key": hx(&keys[ki]), "nonce": hx(n0), "msg_len": len, "footer_len": footer.len(), "aad_len": aad.len()});
+                if !matches!(guard(|| pairs[ki].seal_with_nonce(n0, &msg, &footer, &aad)), Ok(Ok(t)) if t == want) {
+                    rep.violation(&format!("C03|{}|local|seal-differs-from-reference:in-sequence", B::NAME), d());
+                }
+                if !matches!(guard(|| pairs[ki].open(&want, &aad)), Ok(Ok((m, _))) if m == msg) {
+                    rep.violation(&format!("C03|{}|local|reference-token-rejected:in-sequence", B::NAME), d());
+                }
+                rep.case(&class, fnv_parts(&[B::NAME.as_bytes(), &(step as u64).to_le_bytes()]), true);
+            }
+        }
+    }
+
     // reference-built tokens with a chosen *embedded* nonce (v1/v2 derive it when sealing, so this
     // direction is the only way to reach them), including v1 counter blocks that wrap
     if B::VER <= 2 {
@@ -314,11 +346,49 @@ fn suffix_cases<B: Backend, P: Prims>(opts: &Opts, rep: &mut Report, idx: &mut u
     }
 }
 
+/// one signing key object used for a long sequence of messages of every length 0..=600
+fn public_sequence<B: Backend, P: Prims>(opts: &Opts, rep: &mut Report) {
+    if opts.shard != 1 % opts.nshards && opts.only.is_none() {
+        return;
+    }
+    let stream = format!("c03.{}.public-seq", B::NAME);
+    let mut rng = Rng::derive(opts.seed, &stream, 0);
+    let sk_raw = B::gen_secret(&mut rng);
+    let kp = KeyPair::<B>::from_raw(Purp::Public, &sk_raw).expect("key");
+    let pk_raw = kp.raw().1;
+    let step_by = if B::VER == 1 { 7 } else { 1 };
+    for len in (0..=600usize).step_by(step_by) {
+        let msg = rng.bytes(len);
+        let footer = rng.bytes([0usize, 4, 190, 0][len % 4]);
+        let aad = if B::HAS_AAD { rng.bytes([0usize, 0, 9, 140][(len / 2) % 4]) } else { vec![] };
+        let d = || json!({"backend": B::NAME, "msg_len": len, "footer_len": footer.len(), "aad_len": aad.len(), "secret_key": hx_short(&sk_raw)});
+        match guard(|| kp.seal(&msg, &footer, &aad)) {
+            Ok(Ok(t)) => {
+                let (_, body, f) = split_token(&t);
+                if r::public_verify::<P>(B::VER, &pk_raw, &body, &f, &aad).as_deref() != Some(&msg[..]) {
+                    rep.violation(&format!("C03|{}|public|independent-verifier-rejects:in-sequence", B::NAME), d());
+                }
+                if B::VER % 2 == 0 && r::public_sign_ed::<P>(B::VER, sk_raw[..32].try_into().unwrap(), &msg, &footer, &aad) != body {
+                    rep.violation(&format!("C03|{}|public|deterministic-signature-differs:in-sequence", B::NAME), d());
+                }
+                if !matches!(guard(|| kp.open(&t, &aad)), Ok(Ok((m, _))) if m == msg) {
+                    rep.violation(&format!("C03|{}|public|own-token-rejected:in-sequence", B::NAME), d());
+                }
+            }
+            _ => rep.violation(&format!("C03|{}|public|sign-failed:in-sequence", B::NAME), d()),
+        }
+        rep.case(&format!("{}.public.dense-sequence", B::NAME), fnv_parts(&[B::NAME.as_bytes(), &(len as u64).to_le_bytes()]), true);
+    }
+}
+
 fn backend<B: Backend, P: Prims>(opts: &Opts, rep: &mut Report) {
     if !opts.wants_backend(B::NAME) {
         return;
     }
     let mut idx = 0u64;
+    if opts.wants_part("public") {
+        public_sequence::<B, P>(opts, rep);
+    }
     if opts.wants_part("suffix") {
         suffix_cases::<B, P>(opts, rep, &mut idx);
     }
